@@ -336,13 +336,30 @@ theorem wf_M_lt (p : Inst) (hp : WfInst p) : p.M < 60 := by
 theorem wf_S_lt (p : Inst) (hp : WfInst p) : p.S < 60 := by
   rcases hp.time with ⟨_, _, h⟩ | ⟨_, _, h⟩ <;> omega
 
-theorem makeEnum_M (r : Rule) (p : Inst) (hr : WfRule r) (hp : WfInst p) :
-    Asc (makeEnum p r).M ∧ ∀ x ∈ (makeEnum p r).M, x < 60 :=
-  enum_field r.M p.M hr.mins (wf_M_lt p hp)
+/-- the enumeration of the sub-daily fillers: they read an all-day seed as midnight before `make_enum` sees it
+(`pr.H = H`), so BYMINUTE and BYSECOND expand whatever the kind of the seed -/
+abbrev subEnum (p : Inst) (r : Rule) : Enum := makeEnum { p with H := if p.H = allDay then 0 else p.H } r
 
-theorem makeEnum_S (r : Rule) (p : Inst) (hr : WfRule r) (hp : WfInst p) :
-    Asc (makeEnum p r).S ∧ ∀ x ∈ (makeEnum p r).S, x < 60 :=
-  enum_field r.S p.S hr.secs (wf_S_lt p hp)
+theorem mkSubCtx_e (r : Rule) (p : Inst) (k : Nat) : (mkSubCtx r p k).e = subEnum p r := rfl
+
+theorem subEnum_eq (r : Rule) (p : Inst) :
+    (subEnum p r).M = (if r.M.isEmpty then [p.M % 256] else r.M.map (· % 256)) ∧
+    (subEnum p r).S = (if r.S.isEmpty then [p.S % 256] else r.S.map (· % 256)) := by
+  have hne : ¬ (if p.H = allDay then 0 else p.H) = allDay := by
+    split
+    · decide
+    · assumption
+  unfold subEnum makeEnum
+  rw [if_neg hne]
+  exact ⟨rfl, rfl⟩
+
+theorem subEnum_M (r : Rule) (p : Inst) (hr : WfRule r) (hp : WfInst p) :
+    Asc (subEnum p r).M ∧ ∀ x ∈ (subEnum p r).M, x < 60 := by
+  rw [(subEnum_eq r p).1]; exact enum_field r.M p.M hr.mins (wf_M_lt p hp)
+
+theorem subEnum_S (r : Rule) (p : Inst) (hr : WfRule r) (hp : WfInst p) :
+    Asc (subEnum p r).S ∧ ∀ x ∈ (subEnum p r).S, x < 60 := by
+  rw [(subEnum_eq r p).2]; exact enum_field r.S p.S hr.secs (wf_S_lt p hp)
 
 /-- the order key of an entry `(iM, iS, minute, second)` of `Enum.timesMS` -/
 def tk (t : Nat × Nat × Nat × Nat) : Nat := 64 * t.2.2.1 + t.2.2.2
